@@ -44,11 +44,6 @@ Proof. exact no_skip_on_crash_refuted. Qed.
 Print Assumptions C03_no_skip_on_crash_refuted.
 
 (* --- non-vacuity: a crash with a read-but-unacked record and an undelivered ack --- *)
-Definition nv3_cfg : cfg := mkCfg 1 [5] 2 true.
-Definition nv3_model : mcfg := mkM nv3_cfg 100.
-Definition nv3_schedule : list action :=
-  [ARead 0 6; ARead 0 7; ARead 0 8; AAck 0 [6; 7]; AFlush; AWriteDone true [] true; ACallback 0; ACallback 0;
-   ADeliver 0 true; AAck 0 [8]; ARead 0 9].
 
 Example C03_nonvacuous :
   let y := run nv3_model (init_sys nv3_model) nv3_schedule in
